@@ -49,6 +49,16 @@ func c10KdcScenarios() []KdcScenario {
 		add(fmt.Sprintf("kerberos-message-of-%d-bytes", n), der.KdcProxyMessage(make([]byte, n), "EXAMPLE.COM", true, 0, false), nil)
 		add(fmt.Sprintf("kerberos-message-of-%d-bytes-no-realm", n), der.KdcProxyMessage(make([]byte, n), "", false, 0, false), nil)
 	}
+	// the 4-byte length prefix inside the Kerberos message announces fewer or more bytes than follow
+	for _, d := range []int{-16, -5, -4, -3, -2, -1, 1, 2, 3, 4, 5, 8, 16, 1 << 20, -17} {
+		m := kdcMessage(16)
+		v := uint32(16 + d)
+		if d == -17 {
+			v = 0xFFFFFFFF
+		}
+		m[0], m[1], m[2], m[3] = byte(v>>24), byte(v>>16), byte(v>>8), byte(v)
+		add(fmt.Sprintf("inner-length-prefix=%d-for-16-bytes", int32(v)), der.KdcProxyMessage(m, "EXAMPLE.COM", true, 0, false), nil)
+	}
 	add("implicit-realm-tag", der.TLV(0x30, append(der.TLV(0xA0, der.TLV(0x04, kdcMessage(8))), der.TLV(0x81, []byte("EXAMPLE.COM"))...)), nil)
 	add("realm-with-nul", der.KdcProxyMessage(kdcMessage(8), "EXAMPLE.COM\x00X", true, 0, false), nil)
 	add("realm-empty", der.KdcProxyMessage(kdcMessage(8), "", true, 0, false), nil)
